@@ -19,7 +19,7 @@
 
 use crossbeam_channel as cbc;
 use log::{debug, error, info};
-use libfs::copy_node;
+use libfs::{copy_node, is_same_file};
 use std::fs::remove_file;
 use std::os::unix::fs::symlink;
 use std::path::{Path, PathBuf};
@@ -123,6 +123,11 @@ fn copy_worker(work: cbc::Receiver<Operation>, config: &Arc<Config>, updates: Ar
                 if to.exists() {
                     if config.no_clobber {
                         return Err(XcpError::DestinationExists("Destination file exists and --no-clobber is set.", to).into());
+                    }
+                    // The entry may be the source itself under another
+                    // spelling; removing it would delete the source.
+                    if is_same_file(&from, &to)? {
+                        return Err(XcpError::InvalidDestination("Source and destination are the same file.").into());
                     }
                     remove_file(&to)?;
                 }
